@@ -672,7 +672,7 @@ impl<M: Math, T: Transformation<M>> Hamiltonian<M> for TransformedHamiltonian<M,
             .init_from_untransformed_position(transformation, math)
             .map_err(|e| NutsError::LogpFailure(Box::new(e)))?;
 
-        if !point.check_all(math) {
+        if !point.check_all(math) | !point.logp.is_finite() {
             Err(NutsError::BadInitGrad(
                 anyhow::anyhow!("Invalid initial point").into(),
             ))
